@@ -68,9 +68,9 @@ impl Req {
 }
 
 pub fn ent_to_json(e: &EntSpec) -> serde_json::Value {
-    let mt = e.mtime.map(|m| {
-        let d = m.duration_since(UNIX_EPOCH).expect("post-epoch");
-        serde_json::json!([d.as_secs().to_string(), d.subsec_nanos()])
+    let mt = e.mtime.map(|m| match m.duration_since(UNIX_EPOCH) {
+        Ok(d) => serde_json::json!([d.as_secs().to_string(), d.subsec_nanos()]),
+        Err(e) => serde_json::json!([format!("-{}", e.duration().as_secs()), e.duration().subsec_nanos()]),
     });
     serde_json::json!({
         "len": e.len.to_string(),
@@ -92,13 +92,14 @@ pub fn ent_from_json(v: &serde_json::Value) -> EntSpec {
         mtime: if v["mtime"].is_null() {
             None
         } else {
-            Some(
-                UNIX_EPOCH
-                    + Duration::new(
-                        v["mtime"][0].as_str().expect("secs").parse().expect("u64"),
-                        v["mtime"][1].as_u64().expect("nanos") as u32,
-                    ),
-            )
+            Some({
+                let secs = v["mtime"][0].as_str().expect("secs");
+                let nanos = v["mtime"][1].as_u64().expect("nanos") as u32;
+                match secs.strip_prefix('-') {
+                    Some(s) => UNIX_EPOCH - Duration::new(s.parse().expect("u64"), nanos),
+                    None => UNIX_EPOCH + Duration::new(secs.parse().expect("u64"), nanos),
+                }
+            })
         },
         headers: v["headers"]
             .as_array()
@@ -295,9 +296,14 @@ pub struct Model {
     pub repeated: bool,
 }
 
+/// Second of the modification time. Times before the epoch (used only by the totality check)
+/// are reported as second 0; no conditional verdict is asserted for them (see `model`).
 pub fn lm_sec(ent: &EntSpec) -> Option<u64> {
-    ent.mtime
-        .map(|m| m.duration_since(UNIX_EPOCH).expect("post-epoch mtime").as_secs())
+    ent.mtime.map(|m| m.duration_since(UNIX_EPOCH).map(|d| d.as_secs()).unwrap_or(0))
+}
+
+pub fn pre_epoch(ent: &EntSpec) -> bool {
+    ent.mtime.map(|m| m < UNIX_EPOCH).unwrap_or(false)
 }
 
 const COND_HDRS: [&str; 4] = [
@@ -340,6 +346,13 @@ pub fn model(req: &Req, ent: &EntSpec) -> Model {
         if_modified_since: req.get("if-modified-since"),
         if_unmodified_since: req.get("if-unmodified-since"),
     });
+    // the statements about dates are made for times an HTTP-date can express; for a pre-epoch
+    // modification time only totality (C13) is asserted when a date header takes part
+    let cond = if pre_epoch(ent) && (req.get("if-modified-since").is_some() || req.get("if-unmodified-since").is_some()) {
+        CondVerdict::Unconstrained
+    } else {
+        cond
+    };
     let gate = cond::if_range(req.get("if-range"), ent.etag.as_deref(), lm);
     let mut range_free = false;
     let mut shapes: Vec<Shape> = Vec::new();
@@ -979,7 +992,7 @@ pub fn check_validators(req: &Req, ent: &EntSpec, obs: &ServeObs, out: &mut Vec<
                         out.push(f(&["C14"], "lm-after-date", format!("Last-Modified {lmv} later than Date {d}")));
                     }
                     let secs = |t: SystemTime| t.duration_since(UNIX_EPOCH).unwrap().as_secs();
-                    let mts = secs(mt);
+                    let mts = if mt < UNIX_EPOCH { u64::MAX } else { secs(mt) };
                     if mts < secs(obs.t0) {
                         // certainly in the past at the time of the call
                         if lmv != mts {
